@@ -324,8 +324,8 @@ def run(ctx):
         cg = gen.rand_grid(r, h, w, floor_bias=0.5)
         if r.random() < 0.5:
             # sparse pillars in views of the usual size: cells seen THROUGH gaps (fully lit cells beyond partially lit ones)
-            h, w = r.choice([(5, 5), (7, 7), (6, 5), (5, 7)])
-            cg = tuple(tuple(WALL if r.random() < r.choice([0.08, 0.15, 0.25]) else FLOOR for _ in range(w)) for _ in range(h))
+            h, w = r.choice([(5, 5), (7, 7), (6, 5), (5, 7), (6, 6), (8, 8), (4, 7), (3, 9)]) if r.random() < 0.7 else (r.randint(2, 9), r.randint(2, 9))
+            cg = tuple(tuple(WALL if r.random() < r.choice([0.0, 0.08, 0.15, 0.25]) else FLOOR for _ in range(w)) for _ in range(h))
         pos = (h - 1, r.randrange(w)) if r.random() < 0.5 else (h - 1, w // 2)
         cg = gen.set_cell(cg, pos, FLOOR) if cg[pos[0]][pos[1]] == WALL else cg
         det = mask_of('raytracing', cg, pos)
